@@ -71,7 +71,13 @@ def _render(case, rnd) -> str:
     def col(name):
         # logical column name -> SQL spelling; a column that needs quoting is always written quoted, as declared
         return qc[name] if name in qc else idc(name)
-    on = f" {kw('and')} ".join(f"{t()}.{col('k' + str(j))} = {s()}.{col('k' + str(j))}" for j in range(nk))
+    if case.get("nullsafe"):
+        # NULL-safe join: NULL keys join NULL keys (the model sees NULL as one more key value)
+        on = f" {kw('and')} ".join(f"{t()}.{col('k' + str(j))} {kw('is not distinct from')} {s()}.{col('k' + str(j))}" for j in range(nk))
+    elif case.get("on_swapped"):
+        on = f" {kw('and')} ".join(f"{s()}.{col('k' + str(j))} = {t()}.{col('k' + str(j))}" for j in range(nk))
+    else:
+        on = f" {kw('and')} ".join(f"{t()}.{col('k' + str(j))} = {s()}.{col('k' + str(j))}" for j in range(nk))
     ox = case.get("on_extra") or {}
     if ox.get("t") is not None:
         on += f" {kw('and')} {t()}.{col('c' + str(ox['t']))} = 1"
@@ -213,7 +219,10 @@ def _gen_case(rnd: random.Random, i: int) -> dict:
         # a target and a source column whose names must be quoted (reserved word / space / lower case)
         quoted_cols = {f"c{ntc - 1}": rnd.choice(['"ORDER"', '"unit price"', '"Group"']), f"d{nsc - 1}": rnd.choice(['"select"', '"src col"'])}
     tx = rnd.choice([None, None, None, None, "commit", "rollback"])
-    return {"id": i, "tx": tx, "quoted_cols": quoted_cols, "on_extra": on_extra, "shape": (nk, ntc, nsc), "ttypes": tt, "stypes": stt, "tloc": tloc, "clauses": clauses, "tgt": tgt, "src": src, "style": style, "tname": tname, "sname": sname,
+    on_form = rnd.random()
+    nullsafe = on_extra is None and on_form < 0.15
+    on_swapped = on_extra is None and 0.15 <= on_form < 0.3
+    return {"id": i, "nullsafe": nullsafe, "on_swapped": on_swapped, "tx": tx, "quoted_cols": quoted_cols, "on_extra": on_extra, "shape": (nk, ntc, nsc), "ttypes": tt, "stypes": stt, "tloc": tloc, "clauses": clauses, "tgt": tgt, "src": src, "style": style, "tname": tname, "sname": sname,
             "source_sql": source_sql, "recase": rnd.random() < 0.5, "omit_true": rnd.random() < 0.7,
             "permute_insert": rnd.random() < 0.3, "unqualified_src": rnd.random() < 0.3, "render_seed": rnd.randrange(1 << 30)}
 
@@ -337,10 +346,12 @@ def _shift_clause(c: str, nk: int) -> str:
 
 def _line(case) -> str:
     ox = case.get("on_extra")
-    if not ox:
-        return "\t".join(["merge", "run", enc_list(case["clauses"]), enc_list([_enc_row(r) for r in case["tgt"]]),
-                          enc_list([_enc_row(r) for r in case["src"]])])
     nk = case["shape"][0]
+    if not ox:
+        # NULL-safe ON: a NULL key is one more key value (0 is not used by the generator)
+        ns = (lambda r: ((0,) * nk, r[1]) if r[0] is None else r) if case.get("nullsafe") else (lambda r: r)
+        return "\t".join(["merge", "run", enc_list(case["clauses"]), enc_list([_enc_row(ns(r)) for r in case["tgt"]]),
+                          enc_list([_enc_row(ns(r)) for r in case["src"]])])
 
     def enc(r, col):
         k, vals = r
@@ -350,7 +361,7 @@ def _line(case) -> str:
                       enc_list([enc(r, ox["t"]) for r in case["tgt"]]), enc_list([enc(r, ox["s"]) for r in case["src"]])])
 
 
-def _rows(s: str, nk: int, extra: bool = False):
+def _rows(s: str, nk: int, extra: bool = False, nullsafe: bool = False):
     out = []
     for r in dec_list(s):
         k, v = r.split("|")
@@ -359,6 +370,8 @@ def _rows(s: str, nk: int, extra: bool = False):
             out.append(vals)
             continue
         key = (None,) * nk if k == "N" else tuple(int(x) for x in k.split(","))
+        if nullsafe and key == (0,) * nk:
+            key = (None,) * nk
         out.append(key + vals)
     return sorted(out, key=_sortkey)
 
@@ -389,7 +402,12 @@ def _judge(chk, case, real, m) -> None:
     if finding.startswith("out-of-scope"):
         return
     nk = case["shape"][0]
-    spec_t, impl_t = _rows(m["spec"], nk, bool(case.get("on_extra"))), _rows(m["impl"], nk, bool(case.get("on_extra")))
+    nsf = bool(case.get("nullsafe"))
+    if nsf:
+        chk.count("on:null-safe")
+    elif case.get("on_swapped"):
+        chk.count("on:source-column-first")
+    spec_t, impl_t = _rows(m["spec"], nk, bool(case.get("on_extra")), nsf), _rows(m["impl"], nk, bool(case.get("on_extra")), nsf)
     sc, ic = _counts(m["scount"]), _counts(m["icount"])
     src0 = sorted((_flat(r, nk) for r in case["src"]), key=_sortkey)
     desc = f"{real['sql']!r} over t={case['tgt']} s={case['src']}"
@@ -431,6 +449,28 @@ def _judge(chk, case, real, m) -> None:
             chk.violation("model inconsistency: C12_partial says impl~spec under H1,H2", case, broken="C12_partial", failing_input=False)
         return
     # real differs from MERGE semantics: only the listed regions, and only with the modelled behaviour, are known
+    nullkey = (None,) * nk
+    tnull, snull = sum(r[0] is None for r in case["tgt"]), sum(r[0] is None for r in case["src"])
+    phantom = nsf and (tnull == 0) != (snull == 0) and any(c[0] in "DU" for c in case["clauses"])
+    if phantom:
+        # NULL-safe ON with NULL keys on one side only: the code's CASE takes the outer join's NULL padding for a match
+        # (`NULL IS NOT DISTINCT FROM NULL`), so an unmatched NULL-keyed target row is updated/deleted from an all-NULL phantom
+        # source row, and an unmatched NULL-keyed source row is counted under a matched clause instead of being inserted.
+        # Everything about rows that have a key (and the source, the bystander) must still be exact, and the counts may be
+        # off by at most the number of NULL-keyed rows.
+        def nn(rows):
+            return [r for r in rows if tuple(r[:nk]) != nullkey]
+
+        def near(col, lo, hi):
+            if col not in sc:
+                return isinstance(status, dict) and col not in status
+            v = status.get(col) if isinstance(status, dict) else None
+            return isinstance(v, int) and sc[col] - lo <= v <= sc[col] + hi
+        counts_near = near(COLS[0], snull, 0) and near(COLS[1], 0, tnull + snull) and near(COLS[2], 0, tnull + snull)
+        if counts_near and (nn(real_t) == nn(spec_t) or (finding == "C12/over-delete" and nn(real_t) == nn(impl_t))):
+            chk.finding("C12/null-safe-on-phantom-match", f"NULL-keyed rows matched the outer join's NULL padding: target {real_t} ≠ MERGE semantics {spec_t} "
+                        f"or status {status} ≠ {sc} for {desc}", case)
+            return
     if finding == "C12/over-delete" and real_t == impl_t and status == ic:
         chk.finding("C12/over-delete", f"target {real_t} ≠ MERGE semantics {spec_t} for {desc}", case)
     elif finding == "C12/counts-null-no-candidates" and ok_target and status == ic:
